@@ -24,7 +24,7 @@ import treeio
 import parsergen
 from checks import C01
 
-THEOREMS = ["C02_total", "C02_total_checked", "C02_terminates", "C02_terminates_checked", "C02_errors_wellformed",
+THEOREMS = ["C02_total", "C02_total_checked", "C02_linear", "C02_linear_checked", "C02_work_is_tree_size", "C02_terminates", "C02_terminates_checked", "C02_errors_wellformed",
             "C02_token_stream_total", "C02_reachable_states_tile"]
 TRUSTED = [
     "Coq 8.16.1 kernel; vm_compute for the reflective obligations on the regenerated grammar (chk_all, bchk_all, prog_msgs_ok); no axioms (Print Assumptions: closed under the global context)",
@@ -32,7 +32,7 @@ TRUSTED = [
     "translator tools/translate/t_grammar.py (+ t_tokens, t_lextables, t_unicode); the certificate generator tools/cert_grammar.py is NOT trusted (its output is re-checked inside Coq)",
     "the interpreter coq/model/GInterp.v as the meaning of the Rust subset the grammar is written in (Appendix C of DESIGN.md): panics of the Rust code are the RPanic outcomes of the model",
     "native stack consumption is not modelled: nesting <= 256 is exercised on the real parser (8 MiB stack thread), labelled test",
-    "the linear work bound is measured (model counters nlex/nstart and the real tree's node/leaf counts against the raw token count), not proved: C02_linear_partial",
+    "the linear work bound C02_linear is proved for the model's counters nlex + nstart with the constant grammar_K computed from the regenerated grammar; on the real parser the same counters are read off the tree (C02_work_is_tree_size: nlex = leaves + 1, nstart <= nodes) and checked against the measured bound WORK_K",
     "Coq extraction (ExtrOcamlBasic only) and the OCaml driver coq/extract/syntax_driver.ml; Rust harness harness/src/bin/parsedump.rs; this Python driver and its oracle (lib/synlib.py: errors_oracle)",
 ]
 TRANSLATORS = C01.TRANSLATORS
